@@ -310,11 +310,23 @@ def replay(v):
             print('  sanitize ->', trepr(J.sanitize(x)), ' json round trip ->', trepr(json_roundtrip(x)))
         except Exception as e:
             print('  sanitize raised', type(e).__name__)
+    acc = Acc()
     if len(vals) == 2:
         a, b = vals
-        print('  is_equal =', J.is_equal(a, b), ' canonical equal =', canonform(a) == canonform(b))
+        want = canonform(a) == canonform(b)
+        print('  is_equal =', J.is_equal(a, b), ' canonical equal =', want)
+        if J.is_equal(a, b) != want or J.is_equal(b, a) != want:
+            acc.bad('json.is_equal', {}, [a, b])
         try:
-            print('  to_hashable equal =', J.to_hashable(a) == J.to_hashable(b))
+            hq = J.to_hashable(a) == J.to_hashable(b)
+            print('  to_hashable equal =', hq)
+            if hq != want:
+                acc.bad('json.hashable', {}, [a, b])
         except Exception as e:
             print('  to_hashable raised', e)
-    return 1
+            acc.bad('json.hashable_raised', {}, [a, b])
+    else:
+        for x in vals:
+            check_unary(J, x, acc)
+    print('  re-judged on the current tree: %d violations' % len(acc.violations))
+    return 1 if acc.violations else 0
